@@ -49,6 +49,7 @@ POOL = {
     "X2": ["tbl", "tb", None, "tp2"],  # another table that already answers to the name the first self-join of tp would get
     "Q": ["sub", SUBP, "qq"], "QN": ["sub", SUBP, None], "QN2": ["sub", SUBP2, None], "UN": ["sub", SUBU, None],
     # QU: a query object an earlier statement used already: it carries the alias sq0 from there
+    "NW": ["tbl", "nw", None, None],  # the name of a MySQL row alias (INSERT .. AS nw), used like a table in the update list
     "QI": ["sub", SUBP2, None],  # the un-aliased source of a correlated subquery (named by the INNER statement)
     "QU": ["sub", SUBP2, None, {"preused": True}], "QD": ["sub", SUBP2, None, {"preused": True, "derived": True}], "C": ["cte", "cc"], "F": ["tbl", "tf", None, None],
 }
@@ -281,6 +282,10 @@ def program(draw):
                 steps.append(["do_update", [["py", nm]]])
             if draw(st.booleans()):
                 steps.append(["where", [["gt", b.f(tk, "conflict_where"), ["raw", 0]]]])
+            if cls == "mysql" and draw(st.booleans()):
+                # MySQL's row alias (INSERT .. AS nw): the new row is a source of its own in the update list, addressed by that name
+                steps.append(["as_", [["py", "nw"]]])
+                steps.append(["do_update", [b.f(tk, "conflict_set_target"), ["add", b.f(tk, "conflict_value"), b.f("NW", "conflict_value_source")]]])
         if cls == "postgresql" and draw(st.booleans()):
             steps.append(["returning", [b.f(tk, "returning")]])
     elif kind == "insert_select":
@@ -489,6 +494,8 @@ def check_program(case):
         exp = expected(case, key, pos)
         for i in idx:
             got = qualifier_before(toks, i)
+            if pos == "conflict_excluded" and got == "nw" and any(st_[0] == "as_" for st_ in case["steps"]):
+                continue  # MySQL's row alias plays EXCLUDED's part
             if pos == "conflict_excluded" and got is not None and got.upper() == "EXCLUDED":
                 continue
             if pos == "conflict_excluded" and got is not None and i >= 4 and toks[i - 3].text == "." and toks[i - 4].kind == "word" and toks[i - 4].value == "EXCLUDED":
